@@ -164,7 +164,10 @@ func (p *Program) preDecodeBlocks() ExitReason {
 
 	pc := ProgramCounter(0)
 	for pc < ProgramCounter(n) {
-		if !bitmask.IsStartOfBasicBlock(pc) {
+		// Every instruction start not covered by the previous scan opens a table entry:
+		// basic-block starts, and also starts that no jump may target (undefined opcode,
+		// or more than 24 bytes behind a terminator) but that execution can fall into.
+		if !bitmask.IsStartOfInstruction(int(pc)) {
 			pc++
 			continue
 		}
